@@ -63,6 +63,9 @@ theorem tagType_agrees (fo : FloatOracle) (fuel : Nat) (text : Bytes) (d : DStat
           | none => cases h
           | some v =>
             dsimp only at h ⊢
+            by_cases hok : litOk v = true
+            case neg => rw [if_pos (by simp [hok])] at h; cases h
+            simp only [hok, Bool.not_true, Bool.false_eq_true, if_false] at h ⊢
             injection h with h; injection h with e1 e2
             subst e1
             refine ⟨t, by simp, ?_⟩
